@@ -8,14 +8,21 @@ set_option linter.unusedVariables false
 namespace UtilModel.RefCount
 open UtilModel
 
+/-- events whose critical section may call a release function -/
+def released_by (e : Ev) (j : Nat) : Prop :=
+  e = .store j ∨ (∃ a, e = .addRefCS a ∨ e = .relCS a ∨ e = .selfRelCS a ∨ e = .setCtxCS a ∨ e = .relRun a)
+
 /-- field-level description of what event `e` (taken in `s`) did to call `j` -/
 def CallStep (s : St) (e : Ev) (j : Nat) (c c' : Call) : Prop :=
   (c'.inv = c.inv ∨ (c.ci.st = .waiting ∧ c'.inv = some s.ninv ∧ e = .enter j s.ninv)) ∧
   (c'.res = c.res ∨ (c.ci.st = .running ∧ ∃ k v h er, e = .leave j k v h er ∧ c.inv = some k ∧ c'.res = some (v, h, er))) ∧
-  (c.released = true → c'.released = true) ∧ c'.nonce = c.nonce ∧ (c'.ci.st = .waiting → c.ci.st = .waiting)
+  (c.released = true → c'.released = true) ∧ c'.nonce = c.nonce ∧ (c'.ci.st = .waiting → c.ci.st = .waiting) ∧
+  (c'.fin = false → c.fin = false) ∧ (c.stored = true → c'.stored = true) ∧
+  (c'.stored = true → c.stored = true ∨ e = .store j) ∧ (c'.released = true → c.released = true ∨ released_by e j) ∧
+  c'.root = c.root
 
 theorem callStep_refl (s : St) (e : Ev) (j : Nat) (c : Call) : CallStep s e j c c :=
-  ⟨Or.inl rfl, Or.inl rfl, fun h => h, rfl, fun h => h⟩
+  ⟨Or.inl rfl, Or.inl rfl, fun h => h, rfl, fun h => h, fun h => h, fun h => h, fun h => Or.inl h, fun h => Or.inl h, rfl⟩
 
 /-- the calls of the successor state, described call by call -/
 def CallsFrame (s s' : St) (e : Ev) : Prop :=
@@ -32,24 +39,25 @@ theorem frame_sameCalls (s s' : St) (e : Ev) (h1 : s'.calls = s.calls) (h2 : s'.
   · intro j c h; exact ⟨c, by rw [h1]; exact h⟩
 
 theorem frame_shutdown (s s0 : St) (e : Ev) (h1 : s0.calls = s.calls) (h2 : s0.ninv = s.ninv)
-    (h3 : ∀ j, e ≠ .enter j s.ninv) : CallsFrame s (shutdown s0) e := by
+    (h3 : ∀ j, e ≠ .enter j s.ninv) (h4 : ∀ j, released_by e j) : CallsFrame s (shutdown s0) e := by
   refine ⟨?_, ?_, Or.inl ⟨by simp [h2], h3⟩⟩
   · intro j c' h
     obtain ⟨c, g1, g2⟩ := shutdown_call s0 j c' h
     left
     refine ⟨c, by rw [← h1]; exact g1, ?_⟩
     rw [g2]
-    exact ⟨Or.inl rfl, Or.inl rfl, by intro hr; simp [updCall, hr], rfl, fun h => h⟩
+    exact ⟨Or.inl rfl, Or.inl rfl, by intro hr; simp [updCall, hr], rfl, fun h => h, fun h => h, fun h => h,
+      fun h => Or.inl h, fun _ => Or.inr (h4 j), rfl⟩
   · intro j c h
     rw [← h1] at h
     exact ⟨updCall s0 j c, by rw [shutdown_calls, h]; rfl⟩
 
 theorem frame_startResolve (s s0 : St) (e : Ev) (h1 : s0.calls = s.calls) (h2 : s0.ninv = s.ninv)
-    (h3 : ∀ j, e ≠ .enter j s.ninv) : CallsFrame s (startResolve s0) e := by
+    (h3 : ∀ j, e ≠ .enter j s.ninv) (h4 : ∀ j, released_by e j) : CallsFrame s (startResolve s0) e := by
   rw [startResolve_eq]
   split
-  · exact frame_shutdown s s0 e h1 h2 h3
-  · obtain ⟨f1, f2, f3⟩ := frame_shutdown s s0 e h1 h2 h3
+  · exact frame_shutdown s s0 e h1 h2 h3 h4
+  · obtain ⟨f1, f2, f3⟩ := frame_shutdown s s0 e h1 h2 h3 h4
     refine ⟨?_, ?_, ?_⟩
     · intro j c' h
       rcases spawned_call _ j c' h with ⟨_, g⟩ | ⟨hj, g⟩
@@ -64,11 +72,11 @@ theorem frame_startResolve (s s0 : St) (e : Ev) (h1 : s0.calls = s.calls) (h2 : 
     · simpa [spawned] using f3
 
 theorem frame_afterRemove (s s0 : St) (e : Ev) (h1 : s0.calls = s.calls) (h2 : s0.ninv = s.ninv)
-    (h3 : ∀ j, e ≠ .enter j s.ninv) : CallsFrame s (afterRemove s0) e := by
+    (h3 : ∀ j, e ≠ .enter j s.ninv) (h4 : ∀ j, released_by e j) : CallsFrame s (afterRemove s0) e := by
   unfold afterRemove
   split
   · split
-    · exact frame_shutdown s s0 e h1 h2 h3
+    · exact frame_shutdown s s0 e h1 h2 h3 h4
     · exact frame_sameCalls s s0 e h1 h2 h3
   · exact frame_sameCalls s s0 e h1 h2 h3
 
@@ -125,7 +133,7 @@ theorem calls_frame (s s' : St) (e : Ev) (hs : step s e = some s') : CallsFrame 
       obtain ⟨x, hx, rfl⟩ := h
       left; refine ⟨x, hx, ?_⟩
       split
-      · exact ⟨Or.inl rfl, Or.inl rfl, fun h => h, rfl, fun h => h⟩
+      · exact ⟨Or.inl rfl, Or.inl rfl, fun h => h, rfl, fun h => h, fun h => h, fun h => h, fun h => Or.inl h, fun h => Or.inl h, rfl⟩
       · exact callStep_refl _ _ _ _
     · intro j x hx; simp [hx]
   | envReleased k => simp only [step] at hs; split at hs <;> simp at hs; subst hs; exact frame_sameCalls _ _ _ rfl rfl (by simp)
@@ -141,28 +149,28 @@ theorem calls_frame (s s' : St) (e : Ev) (hs : step s e = some s') : CallsFrame 
     subst hk
     -- the entry number of a waiting call is still unset (it is set here, once)
     refine frame_setCall s _ i c _ _ h rfl ?_ (Or.inr ⟨rfl, i, rfl⟩)
-    exact ⟨Or.inr ⟨hw, rfl, rfl⟩, Or.inl rfl, fun h => h, rfl, by simp⟩
+    exact ⟨Or.inr ⟨hw, rfl, rfl⟩, Or.inl rfl, fun h => h, rfl, by simp, fun h => h, fun h => h, fun h => Or.inl h, fun h => Or.inl h, rfl⟩
   | giveUp i =>
     simp only [step] at hs; split at hs <;> try simp at hs
     rename_i c h
     obtain ⟨_, rfl⟩ := hs
-    exact frame_setCall s _ i c _ _ h rfl ⟨Or.inl rfl, Or.inl rfl, fun h => h, rfl, by simp⟩ (Or.inl ⟨rfl, by simp⟩)
+    exact frame_setCall s _ i c _ _ h rfl ⟨Or.inl rfl, Or.inl rfl, fun h => h, rfl, by simp, by simp, fun h => h, fun h => Or.inl h, fun h => Or.inl h, rfl⟩ (Or.inl ⟨rfl, by simp⟩)
   | drained i =>
     simp only [step] at hs; split at hs <;> try simp at hs
     rename_i c h
     obtain ⟨_, rfl⟩ := hs
-    exact frame_setCall s _ i c _ _ h rfl ⟨Or.inl rfl, Or.inl rfl, fun h => h, rfl, by simp⟩ (Or.inl ⟨rfl, by simp⟩)
+    exact frame_setCall s _ i c _ _ h rfl ⟨Or.inl rfl, Or.inl rfl, fun h => h, rfl, by simp, by simp, fun h => h, fun h => Or.inl h, fun h => Or.inl h, rfl⟩ (Or.inl ⟨rfl, by simp⟩)
   | done i =>
     simp only [step] at hs; split at hs <;> try simp at hs
     rename_i c h
     obtain ⟨_, rfl⟩ := hs
-    exact frame_setCall s _ i c _ _ h rfl ⟨Or.inl rfl, Or.inl rfl, fun h => h, rfl, by simp⟩ (Or.inl ⟨rfl, by simp⟩)
+    exact frame_setCall s _ i c _ _ h rfl ⟨Or.inl rfl, Or.inl rfl, fun h => h, rfl, by simp, by simp, fun h => h, fun h => Or.inl h, fun h => Or.inl h, rfl⟩ (Or.inl ⟨rfl, by simp⟩)
   | leave i k v hr er =>
     simp only [step] at hs; split at hs <;> try simp at hs
     rename_i c h
     obtain ⟨⟨hw, hk, _⟩, rfl⟩ := hs
     refine frame_setCall s _ i c _ _ h rfl ?_ (Or.inl ⟨rfl, by simp⟩)
-    exact ⟨Or.inl rfl, Or.inr ⟨hw, k, v, hr, er, rfl, hk, rfl⟩, fun h => h, rfl, by simp⟩
+    exact ⟨Or.inl rfl, Or.inr ⟨hw, k, v, hr, er, rfl, hk, rfl⟩, fun h => h, rfl, by simp, fun h => h, fun h => h, fun h => Or.inl h, fun h => Or.inl h, rfl⟩
   | store i =>
     simp only [step] at hs; split at hs <;> try simp at hs
     rename_i c h
@@ -171,38 +179,39 @@ theorem calls_frame (s s' : St) (e : Ev) (hs : step s e = some s') : CallsFrame 
     split at hs
     · simp at hs; subst hs
       exact frame_setCall s _ i c { c with fin := true, stored := true } _ h rfl
-        ⟨Or.inl rfl, Or.inl rfl, fun h => h, rfl, by simp⟩ (Or.inl ⟨rfl, by simp⟩)
+        ⟨Or.inl rfl, Or.inl rfl, fun h => h, rfl, by simp, by simp, fun _ => rfl, fun _ => Or.inr rfl, fun h => Or.inl h, rfl⟩ (Or.inl ⟨rfl, by simp⟩)
     · split at hs <;> simp at hs <;> subst hs
       · exact frame_setCall s _ i c { c with fin := true, released := true } _ h rfl
-          ⟨Or.inl rfl, Or.inl rfl, fun _ => rfl, rfl, by simp⟩ (Or.inl ⟨rfl, by simp⟩)
+          ⟨Or.inl rfl, Or.inl rfl, fun _ => rfl, rfl, by simp, by simp, fun h => h, fun h => Or.inl h,
+            fun _ => Or.inr (Or.inl rfl), rfl⟩ (Or.inl ⟨rfl, by simp⟩)
       · exact frame_setCall s _ i c { c with fin := true } _ h rfl
-          ⟨Or.inl rfl, Or.inl rfl, fun h => h, rfl, by simp⟩ (Or.inl ⟨rfl, by simp⟩)
+          ⟨Or.inl rfl, Or.inl rfl, fun h => h, rfl, by simp, by simp, fun h => h, fun h => Or.inl h, fun h => Or.inl h, rfl⟩ (Or.inl ⟨rfl, by simp⟩)
   | addRefCS a =>
     simp only [step] at hs; split at hs <;> try simp at hs
     obtain ⟨_, hs⟩ := hs
     split at hs
-    · simp at hs; subst hs; exact frame_startResolve s _ _ rfl rfl (by simp)
+    · simp at hs; subst hs; exact frame_startResolve s _ _ rfl rfl (by simp) (fun _ => Or.inr ⟨a, Or.inl rfl⟩)
     · split at hs <;> simp at hs <;> subst hs <;> exact frame_sameCalls _ _ _ rfl rfl (by simp)
   | relCS b =>
     simp only [step] at hs; split at hs <;> try simp at hs
     split at hs <;> try simp at hs
     case h_2 => obtain ⟨_, rfl⟩ := hs; exact frame_sameCalls _ _ _ rfl rfl (by simp)
     obtain ⟨_, rfl⟩ := hs
-    exact frame_afterRemove s _ _ rfl rfl (by simp)
+    exact frame_afterRemove s _ _ rfl rfl (by simp) (fun _ => Or.inr ⟨b, Or.inr (Or.inl rfl)⟩)
   | selfRelCS a =>
     simp only [step] at hs; split at hs <;> try simp at hs
     obtain ⟨_, rfl⟩ := hs
-    exact frame_afterRemove s _ _ rfl rfl (by simp)
+    exact frame_afterRemove s _ _ rfl rfl (by simp) (fun _ => Or.inr ⟨a, Or.inr (Or.inr (Or.inl rfl))⟩)
   | setCtxCS a =>
     simp only [step] at hs; split at hs <;> try simp at hs
     split at hs <;> simp at hs <;> obtain ⟨_, rfl⟩ := hs
     · exact frame_sameCalls _ _ _ rfl rfl (by simp)
-    · exact frame_startResolve s _ _ rfl rfl (by simp)
+    · exact frame_startResolve s _ _ rfl rfl (by simp) (fun _ => Or.inr ⟨a, Or.inr (Or.inr (Or.inr (Or.inl rfl)))⟩)
   | relRun r =>
     simp only [step] at hs; split at hs <;> try simp at hs
     split at hs <;> try simp at hs
     split at hs <;> simp at hs <;> obtain ⟨_, rfl⟩ := hs
-    · exact frame_startResolve s _ _ rfl rfl (by simp)
+    · exact frame_startResolve s _ _ rfl rfl (by simp) (fun _ => Or.inr ⟨r, Or.inr (Or.inr (Or.inr (Or.inr rfl)))⟩)
     · exact frame_sameCalls _ _ _ rfl rfl (by simp)
 
 end UtilModel.RefCount
